@@ -36,6 +36,9 @@ Inv_Route         == (Route(AR) = "chol") <=> IsPD(AR)
 \* solving through the code-shaped pipeline yields the exact solution
 BB == [i \in 1..N(A) |-> <<R(i), R(2 - i)>>]                         \* two right-hand sides, not symmetric
 Inv_Solve == Nonsingular(AR) => MatMul(AR, SolveMat(AR, BB)) = BB
+\* homogeneity: (s A) X' = t B has X' = (t / s) X (the replay uses it with powers of two at extreme magnitudes)
+ScaleMat(M, f) == [i \in 1..Len(M) |-> [j \in 1..Len(M[i]) |-> RMul(M[i][j], f)]]
+Inv_SolveHomogeneous == (Nonsingular(AR) /\ N(A) <= 3) => SolveMat(ScaleMat(AR, R(2)), ScaleMat(BB, R(3))) = ScaleMat(SolveMat(AR, BB), <<3, 2>>)
 Inv_Inverse == Nonsingular(AR) => MatMul(AR, SolveMat(AR, IdentR(N(A)))) = IdentR(N(A))
 
 Flat(M) == LET RECURSIVE Fl(_) Fl(k) == IF k = 0 THEN <<>> ELSE Fl(k - 1) \o M[k] IN Fl(Len(M))
